@@ -48,10 +48,26 @@ def distinctCodes : List Attr → Bool
 def wfNet (a : Addr) (mask : Nat) : Bool :=
   mask ≤ a.width && a.val < 2 ^ a.width && a.val % 2 ^ (a.width - 8 * ((mask + 7) / 8)) == 0
 
+/-- `rpki valid` is only declared for paths that end in a non-empty AS_SEQUENCE whose last member
+    is not AS 0 (the harness builds the VRP from that member) -/
+def validOriginOk (r : Route) : Bool :=
+  match r.rpki with
+  | some .valid =>
+      (match (findAttr AS_PATH r.attrs).bind Attr.binary with
+       | some b =>
+           (match segsOf b with
+            | some segs =>
+                (match segs.getLast? with
+                 | some ⟨2, asns⟩ => (match asns.getLast? with | some a => a != 0 | none => false)
+                 | _ => false)
+            | none => false)
+       | none => false)
+  | _ => true
+
 def wfRoute (r : Route) : Bool :=
   wfNet r.net r.mask && r.attrs.all wfAttr && distinctCodes r.attrs &&
   r.attrs.any (fun a => a.code == 1) && r.attrs.any (fun a => a.code == 2) &&
-  (r.attrs.map payloadLen).sum ≤ 60000
+  (r.attrs.map payloadLen).sum ≤ 60000 && validOriginOk r
 
 def wfPat (p : String) : Bool := Regex.supported p
 
